@@ -1,20 +1,10 @@
-// ad-hoc probe (not used by any check): print rendered DP SQL and sub-results
-use qrlew::{relation::{Relation, Variant as _}, sql::{parse, relation::QueryWithRelations}, differential_privacy::DpParameters};
-use qvh::{common::Rng, data::gen_data, exec::{render, RandomMode}};
-fn walk(r: &Relation, db: &qvh::exec::Db, depth: usize) {
-    let res = db.run(r);
-    println!("{}{} {} -> {}", " ".repeat(depth), qvh::s_rules::kind(r), r.name(), match &res { Ok(x) => format!("{} rows {:?}", x.1.len(), x.1.first()), Err(e) => format!("ERR {e}") });
-    if depth < 14 { for i in r.inputs() { walk(i, db, depth + 1); } }
-}
+// ad-hoc probe (not used by any check)
+use qrlew::{relation::Relation, sql::{parse, relation::QueryWithRelations}};
 fn main() {
-    let rels = qvh::s_rules::world();
-    let mut rng = Rng::new(7);
-    let data = gen_data(&mut rng, 30, 3);
-    let db = data.load(RandomMode::Const(0.25));
-    let sql = std::env::args().nth(1).unwrap();
-    let q = parse(&sql).unwrap();
-    let r = Relation::try_from(QueryWithRelations::new(&q, &rels)).unwrap();
-    let dp = r.rewrite_with_differential_privacy(&rels, None, qvh::s_rules::privacy_unit(), DpParameters::from_epsilon_delta(1.0, 1e-5)).unwrap();
-    if std::env::args().nth(2).is_some() { println!("{}", render(dp.relation())); }
-    walk(dp.relation(), &db, 0);
+    let rels = qvh::s_sqlx::world2();
+    for sql in std::env::args().skip(1) {
+        let q = parse(&sql).unwrap();
+        let r = Relation::try_from(QueryWithRelations::new(&q, &rels)).unwrap();
+        println!("{}\n{}", r, qvh::exec::render(&r));
+    }
 }
